@@ -4,6 +4,7 @@ import GixModel.Lemmas.C26Append2
 import GixModel.Lemmas.C26Append3
 import GixModel.Lemmas.C26Append4
 import GixModel.Lemmas.C26Insert
+import GixModel.Lemmas.C26Repl
 /-
 C26 — Config files round-trip losslessly.  PROPERTY THEOREMS ONLY.
 
@@ -170,29 +171,31 @@ theorem file_reparse_uniform_newlines (bs : Bytes) (f : File) (h : fileFromBytes
     rw [fileOfEvents_of_parsed h] at this
     exact this
 
-/-- Print-then-parse with a newline inserted IN THE MIDDLE (round 4), the most common case: the
-FIRST section header of the text (after front matter `fe`: comments, blank lines, whitespace) has
-something on its own line (`[a] k = v`, `[a][b]`, `[a] ; comment`), so `File::write_to` writes a newline right after that header. For every loaded
-file without byte-order mark whose raw events are canonical (as in `events_lossless_partial`), whose
-events are `fe ++ header :: tl` and for which the writer's output is `fe, header, newline t, tl` (`t` = `\n` or
-`\r\n`; nothing else inserted), where what is written for `tl` does not itself start with a newline:
-the written text parses, and parses back to the same headers and entries.
-Proved from two facts about the parser model: the header parser never looks past its closing
-bracket (`sectionHeaderRaw_repl`), and the body loop entered through the inserted newline continues
-exactly as the original loop did (`bodyLoop_ins`). Later sections are not touched at all — the text
-after the insertion point is identical. Headers other than the first one need stability of the
-sections BEFORE them under a change of the following text, which is not proved (see
-`file_reparse_full`). -/
+/-- Print-then-parse with a newline inserted IN THE MIDDLE (round 4): ANY section header of the
+file that has something on its own line (`[a] k = v`, `[a][b]`, `[a] ; comment`), so that
+`File::write_to` writes a newline right after that header. For every loaded file without byte-order
+mark whose raw events are canonical (as in `events_lossless_partial`), whose events are
+`pre ++ header :: tl` (`pre` arbitrary: front matter and any number of sections) and for which the
+writer's output is `pre, header, newline t, tl` (`t` = `\n` or `\r\n`; nothing else inserted), where
+what is written for `tl` does not itself start with a newline: the written text parses, and parses
+back to the same headers and entries.
+Proved from: the header parser never looks past its closing bracket (`sectionHeaderRaw_repl`); the
+body loop entered through the inserted newline continues exactly as the original loop did
+(`bodyLoop_ins`); and every section BEFORE the insertion point — value scanner, key/value pairs,
+comments, body loop — and the front matter give the same events whatever follows the `[` of the
+next header (`valueScan_repl` … `sectionRaw_rp`, `frontLoop_repl`: `Lemmas/C26Repl.lean`). The text
+after the insertion point is identical. The raw-level statement (`parseRaw_insK`) can be iterated, so
+several such headers are covered one at a time; what is NOT covered is the newline inserted before a
+value-less key in the middle of a line (`a b`), see `file_reparse_full`. -/
 theorem file_reparse_key_on_header_line (bs : Bytes) (f : File) (h : fileFromBytes bs = some f)
     (hb : bomLen bs = 0) (hc : ∀ revs, parseRaw bs = some revs → ∀ e ∈ revs, e.canon = true)
-    (fe : List Event) (hd : Header) (tl : List Event) (t : Bytes) (ht : t = [10] ∨ t = [13, 10])
-    (hfe : ∀ e ∈ fe, isHeaderEv e = false)
-    (hev : f.events = fe ++ .header hd :: tl) (haug : f.aug = fe ++ .header hd :: .newline t :: tl)
+    (pre : List Event) (hd : Header) (tl : List Event) (t : Bytes) (ht : t = [10] ∨ t = [13, 10])
+    (hev : f.events = pre ++ .header hd :: tl) (haug : f.aug = pre ++ .header hd :: .newline t :: tl)
     (hY : takeNewlines1 (render tl) = none) :
     ∃ g, fileFromBytes f.write = some g ∧ g.entries = f.entries ∧ g.headers = f.headers := by
-  rw [File.write_eq, haug, fileFromBytes_insF ht h hb hc hfe hev hY]
+  rw [File.write_eq, haug, fileFromBytes_insK ht h hb hc hev hY]
   refine ⟨_, rfl, ?_⟩
-  have := fileOfEvents_front_header_nl fe hfe hd t tl
+  have := fileOfEvents_pre_header_nl pre hd t tl
   rw [← hev, fileOfEvents_of_parsed h] at this
   exact this
 
@@ -206,10 +209,19 @@ example : ∃ f hd tl, fileFromBytes [91, 97, 93, 32, 107, 32, 61, 32, 118, 10, 
 
 -- … and with front matter: `# c\n[a] k = v\n`
 example : ∃ f fe hd tl, fileFromBytes [35, 32, 99, 10, 91, 97, 93, 32, 107, 32, 61, 32, 118, 10] = some f
-    ∧ (∀ e ∈ fe, isHeaderEv e = false) ∧ fe.length = 2
+    ∧ fe.length = 2
     ∧ f.events = fe ++ .header hd :: tl ∧ f.aug = fe ++ .header hd :: .newline [10] :: tl
     ∧ takeNewlines1 (render tl) = none := by
-  refine ⟨_, [.comment 35 [32, 99], .newline [10]], _, _, rfl, by decide, rfl, rfl, by decide +kernel, by decide +kernel⟩
+  refine ⟨_, [.comment 35 [32, 99], .newline [10]], _, _, rfl, rfl, rfl, by decide +kernel, by decide +kernel⟩
+
+-- … and at a LATER header: `[a]\nk=v\n[b] j = 1\n` — the sections before it are read as before
+example : ∃ f pre hd tl, fileFromBytes [91, 97, 93, 10, 107, 61, 118, 10, 91, 98, 93, 32, 106, 32, 61, 32, 49, 10] = some f
+    ∧ pre.length = 6
+    ∧ f.events = pre ++ .header hd :: tl ∧ f.aug = pre ++ .header hd :: .newline [10] :: tl
+    ∧ takeNewlines1 (render tl) = none
+    ∧ f.write = [91, 97, 93, 10, 107, 61, 118, 10, 91, 98, 93, 10, 32, 106, 32, 61, 32, 49, 10] := by
+  refine ⟨_, [.header ⟨[97], none, none⟩, .newline [10], .name [107], .sep, .value [118], .newline [10]], _, _,
+    rfl, rfl, rfl, by decide +kernel, by decide +kernel, by decide +kernel⟩
 
 /-- … and the same when the final newline is missing as well (`[a] k = v` without a line end): the
 writer inserts `t` after the first header AND appends `t2`; both insertions together are read back
@@ -217,26 +229,26 @@ as the same headers and entries. The end-of-file predicates are those of
 `file_reparse_uniform_newlines`. -/
 theorem file_reparse_key_on_header_line_and_final_newline (bs : Bytes) (f : File) (h : fileFromBytes bs = some f)
     (hb : bomLen bs = 0) (hc : ∀ revs, parseRaw bs = some revs → ∀ e ∈ revs, e.canon = true)
-    (fe : List Event) (hd : Header) (tl : List Event) (t t2 : Bytes) (ht : t = [10] ∨ t = [13, 10])
-    (ht2 : t2 = [10] ∨ t2 = [13, 10]) (hfe : ∀ e ∈ fe, isHeaderEv e = false)
-    (hev : f.events = fe ++ .header hd :: tl)
-    (haug : f.aug = fe ++ .header hd :: .newline t :: (tl ++ [.newline t2]))
+    (pre : List Event) (hd : Header) (tl : List Event) (t t2 : Bytes) (ht : t = [10] ∨ t = [13, 10])
+    (ht2 : t2 = [10] ∨ t2 = [13, 10])
+    (hev : f.events = pre ++ .header hd :: tl)
+    (haug : f.aug = pre ++ .header hd :: .newline t :: (tl ++ [.newline t2]))
     (hY : takeNewlines1 (render tl) = none) (hne : render tl ≠ []) (h13 : render tl ≠ [13])
     (hlast : ∃ e, f.events.getLast? = some e ∧ (isValueEnd e = true ∨ evIsWs e = true ∨ isHeaderEv e = true ∨
       (isComment e = true ∧ t2 = [10]))) :
     ∃ g, fileFromBytes f.write = some g ∧ g.entries = f.entries ∧ g.headers = f.headers := by
   obtain ⟨e, hle, hv⟩ := hlast
-  have hfile : fileFromBytes (render (fe ++ .header hd :: .newline t :: (tl ++ [.newline t2]))) =
-      some (fileOfEvents (fe ++ .header hd :: .newline t :: (tl ++ [.newline t2]))) := by
+  have hfile : fileFromBytes (render (pre ++ .header hd :: .newline t :: (tl ++ [.newline t2]))) =
+      some (fileOfEvents (pre ++ .header hd :: .newline t :: (tl ++ [.newline t2]))) := by
     by_cases hnl : t2 = [10]
     · subst hnl
-      refine fileFromBytes_insF_app ht (Or.inl rfl) eofOk_lf isGoodEndLf_toReal h hb hc hfe hev hY hne h13 ⟨e, hle, ?_⟩
+      refine fileFromBytes_insK_app ht (Or.inl rfl) eofOk_lf isGoodEndLf_toReal h hb hc hev hY hne h13 ⟨e, hle, ?_⟩
       rcases hv with hv | hv | hv | hv
       · exact Or.inl (by simp [isGoodEndLf, isGoodEnd, hv])
       · exact Or.inl (by simp [isGoodEndLf, isGoodEnd, hv])
       · exact Or.inr hv
       · exact Or.inl (by simp [isGoodEndLf, hv.1])
-    · refine fileFromBytes_insF_app ht ht2 (eofOk_goodEnd ht2) isGoodEnd_toReal h hb hc hfe hev hY hne h13 ⟨e, hle, ?_⟩
+    · refine fileFromBytes_insK_app ht ht2 (eofOk_goodEnd ht2) isGoodEnd_toReal h hb hc hev hY hne h13 ⟨e, hle, ?_⟩
       rcases hv with hv | hv | hv | hv
       · exact Or.inl (by simp [isGoodEnd, hv])
       · exact Or.inl (by simp [isGoodEnd, hv])
@@ -244,9 +256,9 @@ theorem file_reparse_key_on_header_line_and_final_newline (bs : Bytes) (f : File
       · exact absurd hv.2 hnl
   rw [File.write_eq, haug, hfile]
   refine ⟨_, rfl, ?_⟩
-  have h1 := fileOfEvents_front_header_nl fe hfe hd t (tl ++ [.newline t2])
-  have h2 := fileOfEvents_snoc_nl t2 (fe ++ .header hd :: tl)
-  have hF : fileOfEvents (fe ++ .header hd :: tl) = f := by rw [← hev]; exact fileOfEvents_of_parsed h
+  have h1 := fileOfEvents_pre_header_nl pre hd t (tl ++ [.newline t2])
+  have h2 := fileOfEvents_snoc_nl t2 (pre ++ .header hd :: tl)
+  have hF : fileOfEvents (pre ++ .header hd :: tl) = f := by rw [← hev]; exact fileOfEvents_of_parsed h
   rw [hF] at h2
   simp only [List.append_assoc, List.cons_append] at h2
   exact ⟨h1.1.trans h2.1, h1.2.trans h2.2⟩
